@@ -250,3 +250,29 @@ def run(ctx):
                        "%s:%d" % (b.file, o.line),
                        sample={"fn": fn, "tag": arm, "obligation": o.desc, "needs": o.H.show(an.names) if o.H is not None else None})
     ctx.floor("C25.4", "BOUNDS obligations", len(ctx.instances["C25.4"]), 100)
+
+
+EXTRA_DECODERS = ["nervusdb_storage::csr::decode_page_lists", "nervusdb_storage::csr::decode_segment", "nervusdb_storage::csr::segment_data_page_ids",
+                  "nervusdb_storage::csr::decode_offsets", "nervusdb_storage::csr::decode_edges", "nervusdb_storage::pager::Meta::decode_page",
+                  "nervusdb_storage::idmap::I2eRecord::decode"]
+
+
+def thorough(ctx):
+    """thorough tier: the same BOUNDS obligations for the page-format decoders (segment meta page, offsets / edges blobs, file
+    header, node-table record).  They are not log or value encodings, so they are reported under their own rule id."""
+    F = ctx.facts
+    ctx.rule("C25.T", "BOUNDS over the page-format decoders (thorough tier cross-reference)")
+    for fn in EXTRA_DECODERS:
+        if fn not in F.bodies:
+            ctx.note("decoder %s not present" % fn)
+            continue
+        b = F.bodies[fn]
+        ctx.analysed_fns.add(fn)
+        an, obs = bounds.analyse(F, fn)
+        k = 0
+        for o in sorted(obs, key=lambda o: (o.line, o.bb, str(o.ordinal))):
+            ok = bool(o.ok) and an.converged
+            ctx.instance("C25.T", "%s %s#%d (%s): %s" % (fn.split("::")[-1], o.kind, k, o.desc, "discharged" if ok else "OPEN"))
+            ctx.oblige(ok, "C25.T", "%s:%s#%d" % (fn, o.kind, k),
+                       "page decoder indexes beyond the length established on this path (%s)" % o.desc, "%s:%d" % (b.file, o.line))
+            k += 1
